@@ -43,9 +43,16 @@ def check(ctx, report):
         return
     report.touch(f)
     cons = f.construct
+    lists = collect_lists(f.node)
+    tabulated = ja3_tabulation(ctx, report, f, cons, spec)
+    if tabulated:
+        cipher_section_reads(ctx, report, c, cons, lists)
+        report.floor('C15.R1', 6, 'section obligations')
+        return
+    # fallback: syntactic decision of the same obligations (the function left the evaluable subset)
     ret = [n for n in ast.walk(f.node) if isinstance(n, ast.Return)]
     if len(ret) != 1 or not is_join(ret[0].value):
-        report.error('C15.R1: ja3 does not end in a single <sep>.join([...]) any more')
+        report.error('C15.R1: ja3 is neither evaluable by the tabulation nor a single <sep>.join([...])')
         return
     sep, parts = join_parts(ret[0].value)
     report.count('C15.R1')
@@ -54,7 +61,6 @@ def check(ctx, report):
     if len(parts) != len(spec['sections']):
         report.add('C15.R1', cons + '@sections', 'ja3 has %d sections, the definition has %d' % (len(parts), len(spec['sections'])))
         return
-    lists = collect_lists(f.node)
     for part, sec in zip(parts, spec['sections']):
         report.count('C15.R1')
         name = sec['name']
@@ -92,6 +98,11 @@ def check(ctx, report):
         if other:
             report.add('C15.R1', cons + '@section[%s]@filter' % name, 'section filters more than GREASE: %s' % other)
         report.sample({'rule': 'C15.R1', 'section': name, 'source': info['source'], 'element': info['elt'], 'filters': info['filters']})
+    cipher_section_reads(ctx, report, c, cons, lists)
+    report.floor('C15.R1', 6, 'section obligations')
+
+
+def cipher_section_reads(ctx, report, c, cons, lists):
     # ---- R2
     res = ctx.canon.layout(c, 'compose').result
     used_by_compose = set()
@@ -115,7 +126,6 @@ def check(ctx, report):
             report.add('C15.R2', cons + '@cipher-section[%s]' % a,
                        'compose() emits the cipher suite list from self.%s, the cipher section of ja3 never reads it: '
                        'JA3 differs from the wire bytes (and changes across a parse/compose cycle)' % a)
-    report.floor('C15.R1', 6, 'section obligations')
 
 
 def is_join(n):
@@ -173,3 +183,121 @@ def collect_lists(fnode):
                              'sorted': False, 'reads': reads}
     visit(fnode.body, '', None, [])
     return out
+
+
+# ---- tabulated JA3 ---------------------------------------------------------------------------------------------------
+
+def ja3_tabulation(ctx, report, f, cons, spec):
+    """ja3() evaluated statement by statement (sa.miniexec) on abstract client hellos - every combination of: GREASE /
+    unknown / known cipher suites, extension lists with and without supported_groups and ec_point_formats in both orders,
+    GREASE and unknown extension types, GREASE and unknown groups and point formats - and compared, section by section,
+    with the string the published definition gives for the same hello.  Returns False when the function is outside the
+    evaluable subset (the caller then falls back to the syntactic rule)."""
+    import itertools
+    from ..miniexec import Evaluator, Native, Obj, Raised, Unsupported
+    GREASE, UNKNOWN = Obj(name='GREASE'), Obj(name='UNKNOWN')
+    EXT = {'SERVER_NAME': 0, 'SUPPORTED_GROUPS': 10, 'EC_POINT_FORMATS': 11, 'SESSION_TICKET': 35}
+    ext_tokens = {k: Obj(value=Obj(code=v), name=k, _cls='TlsExtensionType') for k, v in EXT.items()}
+
+    def invalid(code, kind, width):
+        return Obj(value=Obj(code=code, value_type=kind), _cls='TlsInvalidTypeTwoByte' if width == 2 else 'TlsInvalidTypeOneByte')
+
+    def member(code):
+        return Obj(value=Obj(code=code), _cls='member')
+
+    class ExtList(list, Native):
+        def get_item_by_type(self, t):
+            for e in self:
+                if e.extension_type is t:
+                    return e
+            raise KeyError(t)
+
+    class Parser(Native):
+        def __init__(self, data):
+            self.data, self.values = bytes(data), {}
+
+        def parse_numeric(self, name, size):
+            self.values[name] = int.from_bytes(self.data[:size], 'big')
+
+        def __getitem__(self, k):
+            return self.values[k]
+
+    def hook(n, ev):
+        d = ast.unparse(n.func)
+        if d == 'ParserBinary':
+            return Parser(ev.ev(n.args[0]))
+        if d == 'isinstance' and len(n.args) == 2:
+            v = ev.ev(n.args[0])
+            names = [x.strip() for x in ast.unparse(n.args[1]).strip('()').split(',')]
+            return getattr(v, '_cls', None) in names
+        return NotImplemented
+
+    def names(name):
+        if name.startswith('TlsExtensionType.') and name.split('.', 1)[1] in ext_tokens:
+            return ext_tokens[name.split('.', 1)[1]]
+        if name == 'TlsInvalidType.GREASE':
+            return GREASE
+        if name == 'TlsInvalidType.UNKNOWN':
+            return UNKNOWN
+        raise Unsupported('free name %s' % name)
+    cipher_sets = [('plain', [member(4865), member(49199)], [4865, 49199]),
+                   ('grease', [invalid(0x0a0a, GREASE, 2), member(4865), invalid(0x1234, UNKNOWN, 2)], [4865, 0x1234])]
+    group_sets = [('plain', [member(29), member(23)], [29, 23]), ('grease', [invalid(0x1a1a, GREASE, 2), member(29), invalid(0x9999, UNKNOWN, 2)], [29, 0x9999])]
+    format_sets = [('plain', [member(0), member(1), member(2)], [0, 1, 2]), ('grease', [invalid(0x0b, GREASE, 1), member(0), invalid(0x05, UNKNOWN, 1)], [0, 5])]
+    layouts = [('none', []), ('sni-only', ['SERVER_NAME']), ('groups-formats', ['SERVER_NAME', 'SUPPORTED_GROUPS', 'EC_POINT_FORMATS', 'SESSION_TICKET']),
+               ('formats-groups', ['EC_POINT_FORMATS', 'SUPPORTED_GROUPS']), ('formats-only', ['SERVER_NAME', 'EC_POINT_FORMATS']),
+               ('groups-only', ['SUPPORTED_GROUPS']), ('grease-ext', ['GREASE', 'SUPPORTED_GROUPS', 'UNKNOWN', 'EC_POINT_FORMATS'])]
+    section_names = [sec['name'] for sec in spec['sections']]
+    bad = {}
+    n = 0
+    try:
+        for version in (0x0303, 0x0301, 0x0300):
+            for (cn, ciphers, cwant), (gn, groups, gwant), (fn, formats, fwant), (ln, layout) in itertools.product(cipher_sets, group_sets, format_sets, layouts):
+                if version != 0x0303 and (cn, gn, fn) != ('plain', 'plain', 'plain'):
+                    continue
+                n += 1
+                report.count('C15.R1')
+                exts = ExtList()
+                ext_want, grp_want, fmt_want = [], [], []
+                for kind in layout:
+                    if kind == 'GREASE':
+                        exts.append(Obj(extension_type=invalid(0x2a2a, GREASE, 2)))
+                    elif kind == 'UNKNOWN':
+                        exts.append(Obj(extension_type=invalid(0x4567, UNKNOWN, 2)))
+                        ext_want.append(0x4567)
+                    else:
+                        e = Obj(extension_type=ext_tokens[kind])
+                        if kind == 'SUPPORTED_GROUPS':
+                            e.elliptic_curves = list(groups)
+                            grp_want = gwant
+                        if kind == 'EC_POINT_FORMATS':
+                            e.point_formats = list(formats)
+                            fmt_want = fwant
+                        exts.append(e)
+                        ext_want.append(EXT[kind])
+                me = Obj(protocol_version=Obj(compose=lambda v=version: v.to_bytes(2, 'big')), cipher_suites=list(ciphers), extensions=exts,
+                         fallback_scsv=False, empty_renegotiation_info_scsv=False)
+                got = Evaluator({'self': me}, hook, names).function(f.node)
+                want = [str(version), '-'.join(map(str, cwant)), '-'.join(map(str, ext_want)), '-'.join(map(str, grp_want)), '-'.join(map(str, fmt_want))]
+                if not isinstance(got, str):
+                    bad.setdefault('sections', 'ja3 returns %r' % (got,))
+                    continue
+                parts = got.split(spec['section_separator'])
+                if len(parts) != len(want):
+                    bad.setdefault('sections', 'ja3 has %d sections (%r), the definition has %d' % (len(parts), got, len(want)))
+                    continue
+                for name, g, w in zip(section_names, parts, want):
+                    if g != w:
+                        key = {'ciphers': 'cipher_suites', 'groups': 'named_curves', 'formats': 'ec_point_formats'}.get(name, name)
+                        src = next((sec['source'].split('.')[0] for sec in spec['sections'] if sec['name'] == name), name)
+                        bad.setdefault(src, 'hello (version %#06x, ciphers %s, extensions %s, groups %s, formats %s): the %s section is %r, the definition gives %r' % (
+                            version, cn, ln, gn, fn, name, g, w))
+    except Unsupported:
+        return False
+    except Raised as e:
+        report.add('C15.R1', cons + '@raises', 'ja3 raises %s on a well-formed hello' % e.what[:80])
+        return True
+    for src, detail in sorted(bad.items()):
+        report.add('C15.R1', cons + '@section[%s]' % src, detail)
+    report.sample({'rule': 'C15.R1', 'tabulated_hellos': n, 'dimensions': 'cipher suites x groups x point formats (plain / GREASE+unknown) x 7 extension layouts, 3 versions'})
+    return True
